@@ -151,8 +151,11 @@ def check(run, ctx):
         # call site passes (value, line_number) of the same literal tuple
         tc = repo.func(f"{RULE}.{TRY_CREATE[lang]}")
         call = next(c for c in ast.walk(tc.node) if is_call_named(c, b))
-        argn = [ast.unparse(a) for a in call.args]
-        if "value" in argn and "line_number" in argn:
+        argn = [ast.unparse(a) for a in call.args] + [ast.unparse(k.value) for k in call.keywords]
+        # (value, line_number) of one literal record: unpacked names, or fields of one record object (rec.value, rec.line_number)
+        lastn = [a.rsplit(".", 1)[-1] for a in argn]
+        owners = {a.rsplit(".", 1)[0] for a in argn if a.rsplit(".", 1)[-1] in ("value", "line_number") and "." in a}
+        if "value" in lastn and "line_number" in lastn and len(owners) <= 1:
             run.ok(M4, f"{TRY_CREATE[lang]} -> {b}", f"args {argn}")
         else:
             run.finding(M4, TRY_CREATE[lang], f"args:{argn}", f"{b} is not called with the literal's value and line_number", tc.loc)
